@@ -19,7 +19,9 @@ func init() { scenarios["C18"] = scenC18 }
 
 var c18Kinds = []string{"rr", "random", "leastactive", "wrr", "nginx", "wrandom", "wleastactive"}
 
-func c18weighted(k string) bool { return k == "wrr" || k == "nginx" || k == "wrandom" || k == "wleastactive" }
+func c18weighted(k string) bool {
+	return k == "wrr" || k == "nginx" || k == "wrandom" || k == "wleastactive"
+}
 
 // c18vectors enumerates all weight vectors with 1..4 servers and weights 1..4.
 func c18vectors() [][]int {
@@ -161,7 +163,7 @@ func (e *c18env) valid(c *c18call) bool {
 }
 
 func scenC18(r *Run) {
-	modes := []string{"cycle", "membership", "leastactive", "failure-aware", "cycle", "membership", "leastactive-conc"}
+	modes := []string{"cycle", "membership", "leastactive", "failure-aware", "cycle-conc", "membership", "leastactive-conc", "cycle"}
 	mode := modes[r.Index%len(modes)]
 	sub := r.Index / len(modes)
 	if v, ok := r.Opt["mode"]; ok {
@@ -235,6 +237,83 @@ func scenC18(r *Run) {
 			}
 		})
 		sim.Drive(func() bool { return done })
+	case "cycle-conc":
+		// The same proportions with concurrent callers: every selection is one atomic step of the balancer, so
+		// while no call fails the totals over k whole cycles are exact however the callers interleave.
+		kinds := []string{"rr", "wrr", "nginx"}
+		kind := kinds[sub%3]
+		w := vecs[(sub/3*11+r.Plan(len(vecs)))%len(vecs)]
+		r.Param("kind", kind)
+		r.Param("weights", fmt.Sprint(w))
+		e := newC18env(r, sim, kind, w)
+		g, sum := 0, 0
+		for _, x := range w {
+			g = gcd(g, x)
+			sum += x
+		}
+		cycle := len(w)
+		want := map[string]int{}
+		for i, u := range e.urls {
+			switch kind {
+			case "rr":
+				want[u] = 1
+			case "wrr":
+				want[u], cycle = w[i]/g, sum/g
+			case "nginx":
+				want[u], cycle = w[i], sum
+			}
+		}
+		ncycles := 1 + r.Plan(3)
+		total := ncycles * cycle
+		ntasks := 2 + r.Plan(3)
+		// split the picks among the tasks
+		share := make([]int, ntasks)
+		for k := 0; k < total; k++ {
+			share[r.Plan(ntasks)]++
+		}
+		fin := 0
+		id := 0
+		for t := 0; t < ntasks; t++ {
+			var mine []*c18call
+			for k := 0; k < share[t]; k++ {
+				id++
+				mine = append(mine, &c18call{id: id, outcome: 'S'})
+			}
+			e.calls = append(e.calls, mine...)
+			sim.Task(fmt.Sprintf("caller%d", t), func() {
+				for _, c := range mine {
+					e.do(c)
+				}
+				fin++
+			})
+		}
+		st := sim.Drive(func() bool { return fin == ntasks })
+		if sim.Failure() != nil {
+			return
+		}
+		if st != verifsim.Done {
+			fail("stuck:"+kind, "status %v; parked %v", st, sim.ParkedNames())
+			return
+		}
+		got := map[string]int{}
+		for _, c := range e.calls {
+			r.Res.Cases++
+			if c.panicked != nil || c.err != nil || !c.entered {
+				fail("balancer-failed:"+kind, "weights %v: concurrent pick %d failed: err %v panic %v", w, c.id, c.err, c.panicked)
+				return
+			}
+			if !e.valid(c) {
+				fail("invalid-server:"+kind, "weights %v: call %d went to %q", w, c.id, c.url)
+				return
+			}
+			got[c.url]++
+		}
+		for _, u := range e.urls {
+			if got[u] != want[u]*ncycles {
+				fail("cycle-proportions-concurrent:"+kind, "weights %v, %d callers sharing %d whole cycles of %d picks, no call failed: %s was picked %d times, expected %d (all: %v)", w, ntasks, ncycles, cycle, u, got[u], want[u]*ncycles, got)
+				return
+			}
+		}
 	case "membership":
 		// every kind, random outcomes including panics, sequential and concurrent callers
 		kind := c18Kinds[sub%len(c18Kinds)]
